@@ -105,6 +105,9 @@ func renderEnt(w *World, e entShape, name string) (string, *CEntity) {
 		parts = append(parts, `"id":"`+name+`"`)
 	case "absolute_uri":
 		parts = append(parts, `"id":"`+EntNS+name+`"`)
+	case "curie_colon_local":
+		parts = append(parts, `"id":"ex:urn:isbn:`+name+`"`)
+		curie = w.EntP + ":urn:isbn:" + name
 	case "number":
 		parts = append(parts, `"id":5`)
 	case "null":
@@ -159,6 +162,9 @@ func renderEnt(w *World, e entShape, name string) (string, *CEntity) {
 		exp.Props = map[string]any{pp + ":a": []any{
 			map[string]any{"id": w.EntP + ":s1", "props": map[string]any{pp + ":k": []any{}}, "refs": map[string]any{rp0(w) + ":p": w.EntP + ":t1"}},
 			map[string]any{"id": w.EntP + ":s2", "props": map[string]any{}, "refs": map[string]any{}}}}
+	case "colon_keys":
+		parts = append(parts, `"props":{"p:dc:title":"t","p:dc:creator":"c","p:a":1}`)
+		exp.Props = map[string]any{pp + ":dc:title": "t", pp + ":dc:creator": "c", pp + ":a": 1.0}
 	case "array_instead_of_object":
 		parts = append(parts, `"props":[1,2]`)
 	case "unknown_prefix_key":
@@ -174,6 +180,9 @@ func renderEnt(w *World, e entShape, name string) (string, *CEntity) {
 	case "array":
 		parts = append(parts, `"refs":{"r:p":["ex:t1","ex:t2"]}`)
 		exp.Refs = map[string]any{rp + ":p": []any{w.EntP + ":t1", w.EntP + ":t2"}}
+	case "colon_values":
+		parts = append(parts, `"refs":{"r:p":"ex:urn:t:1","r:rel:sub":["ex:urn:t:2","ex:urn:u:2"]}`)
+		exp.Refs = map[string]any{rp + ":p": w.EntP + ":urn:t:1", rp + ":rel:sub": []any{w.EntP + ":urn:t:2", w.EntP + ":urn:u:2"}}
 	case "empty_array":
 		parts = append(parts, `"refs":{"r:p":[]}`)
 		exp.Refs = map[string]any{rp + ":p": []any{}}
